@@ -26,7 +26,7 @@ type c20Packet struct {
 func runC20(c *vf.Case) {
 	r := c.Rng
 	maxSlots := []int{1, 4, 64}[r.Intn(3)]
-	maxBytes := []int{16, 256, 65536}[r.Intn(3)]
+	maxBytes := []int{16, 100, 256, 1000, 1500, 65536}[r.Intn(6)] // powers of two and others
 	offsetterOnly := r.Chance(1, 5)
 	neverEmpty := r.Bool()
 	b := sonic.NewByteBuffer()
@@ -47,7 +47,7 @@ func runC20(c *vf.Case) {
 	discardedSinceReset := 0 // bytes discarded through the offsetter since it was last reset
 	nextSeq := 100
 	outOfOrderPops, dups, longestNeverEmpty, run := 0, 0, 0, 0
-	resets := 0
+	resets, overAsks := 0, 0
 	capErrs := map[string]int{}
 	rangeErrsInARow := 0
 	var shape strings.Builder
@@ -162,11 +162,19 @@ func runC20(c *vf.Case) {
 				}
 			}
 			rawIndex := len(savedConcat())
-			slot := b.Save(n)
+			ask := n
+			if r.Chance(1, 10) && len(read) <= 80 {
+				// a truncated trailing packet: more is asked for than is readable; what is saved (and what the slot
+				// addresses) is what was there
+				n = len(read)
+				ask = n + r.Range(1, 40)
+				overAsks++
+			}
+			slot := b.Save(ask)
 			pkt := append([]byte(nil), read[:n]...)
 			read = read[n:]
 			if n > 0 && (slot.Length != n || slot.Index != rawIndex) {
-				c.Failf("save-slot", "Save(%d) returned %+v, expected index %d", n, slot, rawIndex)
+				c.Failf("save-slot", "Save(%d) with %d readable bytes returned %+v, expected index %d length %d", ask, n, slot, rawIndex, n)
 				return
 			}
 			virtual := rawIndex + discardedSinceReset
@@ -284,6 +292,7 @@ func runC20(c *vf.Case) {
 	}
 	c.Count("out_of_order_pops", outOfOrderPops)
 	c.Count("resets_with_packets_parked", resets)
+	c.Count("saves_asking_for_more_than_is_readable", overAsks)
 	c.Count("duplicate_pushes", dups)
 	for k, v := range capErrs {
 		c.Count("capacity_errors_"+k, v)
